@@ -414,8 +414,14 @@ impl Strategy {
 			return None;
 		}
 
-		// Pick the level with the highest score
-		let (level, _score) = scores[0];
+		// Pick the level with the highest score among the levels that can push
+		// data down. The bottom level has nowhere to move data: its same-level
+		// rewrite only reclaims tombstones and never lowers its own score, so if
+		// it were allowed to outrank the others, an over-target bottom level
+		// would be rewritten forever while L0 keeps growing (and stalls writes).
+		let last = manifest.last_level_index();
+		let (level, _score) =
+			scores.iter().find(|(level, _)| *level < last).copied().unwrap_or(scores[0]);
 		Some(level)
 	}
 }
